@@ -20,7 +20,11 @@ ASSUMPTIONS = ['dense symmetric-definite solver (scipy eigh) on the package matr
                'monotonicity tolerance 1e-7 relative (dense eigen-solver noise floor ~2e-9); closed forms: double-sine series for SSSS specially orthotropic plates (with rotary inertia)']
 LAMS = {'uni0': [0.], 'uni90': [90.], 'cross_sym': [0., 90., 90., 0.], 'iso': None,
         # plies of unequal thickness (symmetric about the mid-surface, so B = 0 and D16 = D26 = 0 still hold)
-        'cross_uneq': [0., 90., 0.], 'cross_uneq2': [90., 0., 0., 90.]}
+        'cross_uneq': [0., 90., 0.], 'cross_uneq2': [90., 0., 0., 90.],
+        # two materials on plies of the same angle (symmetric: still specially orthotropic)
+        'hybrid': [0., 0., 90., 90., 0., 0.]}
+MGLASS = (38.6e9, 8.27e9, 0.26, 4.14e9, 4.14e9, 3.0e9)
+HYBRID_MATS = lambda: [MGLASS, pan.M6, pan.M6, pan.M6, pan.M6, MGLASS]
 PLYTS = {'cross_uneq': [0.3e-3, 0.8e-3, 0.3e-3], 'cross_uneq2': [0.2e-3, 0.5e-3, 0.5e-3, 0.2e-3]}
 TOP = [(4, 4), (16, 4), (4, 16), (15, 15), (16, 15), (15, 16), (16, 16)]
 ASPECTS = [0.2, 0.5, 1.0, 1.7, 5.0]
@@ -61,8 +65,11 @@ def flags_for(fb):
     return fl
 
 
-def build(case, m, n):
+def build(case, m, n, panel=None):
     from compmech.panel import Panel
+    if panel is not None:              # the same object taken through the sequence of series orders
+        panel.m, panel.n = m, n
+        return (panel,) + panel._verif_geo
     b = 0.5
     a = b * case['aspect']
     if case['lam'] == 'iso':
@@ -74,15 +81,20 @@ def build(case, m, n):
     if case['lam'] in PLYTS:
         plyt = PLYTS[case['lam']]
         p = Panel(a=a, b=b, stack=stack, plyts=list(plyt), laminaprop=mat, m=m, n=n, mu=1600.)
+    elif case['lam'] == 'hybrid':
+        mat = HYBRID_MATS()
+        p = Panel(a=a, b=b, stack=stack, plyt=plyt, laminaprops=[tuple(x) for x in mat], m=m, n=n, mu=1600.)
     else:
         p = Panel(a=a, b=b, stack=stack, plyt=plyt, laminaprop=mat, m=m, n=n, mu=1600.)
     for k, v in flags_for(case['fbase']).items():
         setattr(p, k, v)
+    p._verif_geo = (a, b, stack, mat, plyt)
     return p, a, b, stack, mat, plyt
 
 
 def closed_form(case, a, b, stack, mat, plyt, nvals):
-    L = rl.abd(stack, list(plyt) if isinstance(plyt, (list, tuple)) else [plyt] * len(stack), [mat] * len(stack))
+    L = rl.abd(stack, list(plyt) if isinstance(plyt, (list, tuple)) else [plyt] * len(stack),
+               list(mat) if isinstance(mat, list) else [mat] * len(stack))
     if max(abs(L['B']).max() / L['A'].max() / L['h'], abs(L['D'][0, 2]) / L['D'][0, 0], abs(L['D'][1, 2]) / L['D'][0, 0]) > 1e-12:
         raise AssertionError('harness: laminate letter is not specially orthotropic')
     D = L['D']
@@ -101,8 +113,10 @@ def closed_form(case, a, b, stack, mat, plyt, nvals):
     return np.sort(vals)[:nvals]
 
 
-def solve(case, m, n):
-    p, a, b, stack, mat, plyt = build(case, m, n)
+def solve(case, m, n, panel=None):
+    p, a, b, stack, mat, plyt = build(case, m, n, panel)
+    if panel is None:
+        solve.last_panel = p
     K = pan.dense(p.calc_k0(silent=True))
     if case['what'].startswith('lb'):
         k = float(case['what'][2:])
@@ -134,6 +148,20 @@ def check_case(case):
             for n in range(lo, M + 1):
                 vals[(m, n)], geo = solve(case, m, n)
     execs = len(vals)
+    # the same Panel object taken through a sequence of series orders ("add one term in either direction") must reproduce the values of
+    # freshly defined panels
+    path = [q for q in ((lo + 1, lo), (lo, lo + 1), (lo + 2, lo), (lo, lo + 2), (lo + 1, lo + 1)) if q in vals]
+    if path and not case.get('top'):
+        solve(case, lo, lo)
+        shared = solve.last_panel
+        for (m, n) in path:
+            v2, _ = solve(case, m, n, panel=shared)
+            execs += 1
+            k = min(len(v2), len(vals[(m, n)]))
+            if np.abs(v2[:k] - vals[(m, n)][:k]).max() > 1e-9 * np.abs(vals[(m, n)][:k]).max():
+                fails.append(fail('eigenvalues of a Panel object re-used for another series order differ from those of a freshly defined panel',
+                                  sig=None, case=case, orders=[m, n], reused=v2[:k], fresh=vals[(m, n)][:k]))
+                break
     edges = 0
     worst = 0.0
     for (m, n), v in vals.items():
